@@ -607,29 +607,20 @@ theorem can_finish (cfg : Cfg) (progs : List (List BP)) (hs : safeTable cfg prog
         · exact has b hb
       · simp [exec, h1, hex]
 
-theorem strip_safe (cfg : Cfg) (progs : List (List BP)) : safeTable cfg (strip progs) = true := by
-  simp only [safeTable, Bool.and_eq_true, Bool.or_eq_true]
-  refine ⟨?_, Or.inl ?_⟩
-  · simp only [strip, List.all_eq_true, List.mem_map]
-    rintro p ⟨q, _, rfl⟩ b hb
-    simp only [List.mem_filter, Bool.and_eq_true] at hb
-    exact hb.2.1
-  · simp only [noPlainErr, strip, List.all_eq_true, List.mem_map]
-    rintro p ⟨q, _, rfl⟩
-    simp only [Bool.not_eq_true']
-    cases hc : (List.filter (fun b => b.guarded && b != BP.errSend) q).contains BP.errSend with
-    | false => rfl
-    | true =>
-      have := List.contains_iff_mem.mp hc
-      simp only [List.mem_filter, Bool.and_eq_true] at this
-      simp at this
+/-- discipline on the error channel: either nobody does a plain (blocking) `errCh <- err` - all error reports are
+non-blocking select-sends - or `errCh` is written by plain terminal sends only.  A mix is unsafe whatever the
+capacity: a non-blocking report can take the room a blocking one counted on (`Spec.C13.mixedErr_witness`). -/
+def errDisciplined (progs : List (List BP)) : Bool := noPlainErr progs || noSelErr progs
 
 /-- `allGuarded` (the statement of the property's clause) implies the judgement the proofs use -/
-theorem safe_of_allGuarded (cfg : Cfg) (progs : List (List BP)) (hsel : noSelErr progs = true)
+theorem safe_of_allGuarded (cfg : Cfg) (progs : List (List BP)) (hd : errDisciplined progs = true)
     (h : allGuarded cfg progs = true) : safeTable cfg progs = true := by
   simp only [allGuarded, Bool.and_eq_true] at h
+  simp only [errDisciplined, Bool.or_eq_true] at hd
   simp only [safeTable, Bool.and_eq_true, Bool.or_eq_true]
-  exact ⟨h.1, Or.inr ⟨hsel, h.2⟩⟩
+  rcases hd with hd | hd
+  · exact ⟨h.1, Or.inl hd⟩
+  · exact ⟨h.1, Or.inr ⟨hd, h.2⟩⟩
 
 /-! ### a worker parked in an unbounded sleep stays there whatever the node does -/
 
